@@ -4,10 +4,15 @@ import (
 	"bytes"
 	"context"
 	"crypto/sha256"
-	"sync"
 	"encoding/binary"
+	"encoding/json"
 	"fmt"
+	"os"
+	"path/filepath"
+	"sort"
 	"strings"
+	"sync"
+	"sync/atomic"
 	"testing"
 	"testing/synctest"
 	"time"
@@ -33,6 +38,112 @@ const (
 	phase   = 507 * time.Millisecond // harness observation instants never coincide with loop timers
 )
 
+// unit is one configuration × chain content; the fault choices below it are enumerated by explore.Explore.
+// Chain[i] describes the i-th committed block: 0 = empty, k>0 = the block carries transaction list number k. Two
+// blocks with the same number carry byte-identical transaction lists (hence the same data commitment / data-cache
+// key); numbers are in order of first use, so the chains are exactly the equality patterns of the tx lists.
+type unit struct {
+	Initial   uint64 `json:"initial"`
+	DataFirst bool   `json:"data_first"`
+	Chain     []int  `json:"chain"`
+	RestartAt int    `json:"restart_at"` // 0 = no clean restart; k = clean stop and restart at the k-th observation instant
+}
+
+func (u unit) String() string {
+	var sb strings.Builder
+	for _, k := range u.Chain {
+		if k == 0 {
+			sb.WriteByte('-')
+		} else {
+			sb.WriteByte(byte('A' + k - 1))
+		}
+	}
+	if u.RestartAt > 0 {
+		fmt.Fprintf(&sb, " clean-restart@%d", u.RestartAt)
+	}
+	return fmt.Sprintf("init=%d dataFirst=%v chain=%s", u.Initial, u.DataFirst, sb.String())
+}
+
+func (u unit) nonEmpty() (n int) {
+	for _, k := range u.Chain {
+		if k > 0 {
+			n++
+		}
+	}
+	return
+}
+
+// repeats = number of blocks whose transaction list equals that of an earlier block.
+func (u unit) repeats() (n int) {
+	seen := map[int]bool{}
+	for _, k := range u.Chain {
+		if k > 0 && seen[k] {
+			n++
+		}
+		seen[k] = true
+	}
+	return
+}
+
+// adjacentRepeat: two neighbouring blocks carry the same list; separatedRepeat: equal lists with a block in between.
+func (u unit) adjacentRepeat() bool {
+	for i := 1; i < len(u.Chain); i++ {
+		if u.Chain[i] > 0 && u.Chain[i] == u.Chain[i-1] {
+			return true
+		}
+	}
+	return false
+}
+
+func (u unit) separatedRepeat() (overEmpty, overOther bool) {
+	last := map[int]int{}
+	for i, k := range u.Chain {
+		if k == 0 {
+			continue
+		}
+		if j, ok := last[k]; ok && i-j > 1 {
+			for x := j + 1; x < i; x++ {
+				if u.Chain[x] == 0 {
+					overEmpty = true
+				} else {
+					overOther = true
+				}
+			}
+		}
+		last[k] = i
+	}
+	return
+}
+
+// chains enumerates every chain of n blocks up to renaming of transaction lists: each block is empty or carries a
+// list that is either new or equal to the list of any earlier block (restricted-growth strings; Bell(n+1) chains).
+func chains(n int) [][]int {
+	var out [][]int
+	var rec func(cur []int, max int)
+	rec = func(cur []int, max int) {
+		if len(cur) == n {
+			out = append(out, append([]int(nil), cur...))
+			return
+		}
+		for k := 0; k <= max+1; k++ {
+			m := max
+			if k > m {
+				m = k
+			}
+			rec(append(cur, k), m)
+		}
+	}
+	rec(nil, 0)
+	return out
+}
+
+type history struct {
+	Unit    unit            `json:"unit"`
+	Choices []explore.Point `json:"choices"`
+}
+
+var rootSeq atomic.Int64
+
 type event struct {
 	T    string `json:"t"`
 	What string `json:"what"`
@@ -43,6 +154,7 @@ type outcome struct {
 	tags   []string
 	events []event
 	sig    string
+	engine string // machinery problem (never a verdict)
 }
 
 type item struct {
@@ -93,34 +205,42 @@ func le64(b []byte) uint64 {
 	return binary.LittleEndian.Uint64(b)
 }
 
-func body(t *testing.T, c *explore.Ctx, nBlocks, horizon int) (out outcome) {
+func body(t *testing.T, c *explore.Ctx, u unit, horizon int) (out outcome) {
+	// the cache files of a clean stop live here; the directory is only created when a clean restart happens
+	root := filepath.Join(os.TempDir(), fmt.Sprintf("c06-root-%d-%d", os.Getpid(), rootSeq.Add(1)))
+	defer os.RemoveAll(root)
 	synctest.Test(t, func(t *testing.T) {
-		out = bubble(c, nBlocks, horizon)
+		out = bubble(c, u, horizon, root)
 	})
 	return
 }
 
-func bubble(c *explore.Ctx, nBlocks, horizon int) (out outcome) {
+func bubble(c *explore.Ctx, u unit, horizon int, root string) (out outcome) {
 	t0 := time.Now()
 	ev := func(f string, a ...any) {
 		out.events = append(out.events, event{time.Since(t0).String(), fmt.Sprintf(f, a...)})
 	}
-	initial := uint64(1)
-	if c.Choose("config", 2) == 1 {
-		initial = 3
-	}
-	dataFirst := c.Choose("config", 2) == 1
-	p := world.Params{InitialHeight: initial, DABlockTime: daBlock, MempoolTTL: 2, GenesisTime: t0.Add(-time.Hour)}
+	initial := u.Initial
+	dataFirst := u.DataFirst
+	nBlocks := len(u.Chain) - 1 // the last block is committed while submission is in progress
+	p := world.Params{InitialHeight: initial, DABlockTime: daBlock, MempoolTTL: 2, GenesisTime: t0.Add(-time.Hour), RootDir: root}
 	env := world.NewEnv()
 	clock := t0.Add(-time.Hour)
-	fresh := 0
+	asked := 0
 	env.Seq.Next = func(req coreseq.GetNextBatchRequest) world.SeqAnswer {
 		clock = clock.Add(time.Second)
-		if c.Choose("chain", 2) == 1 {
+		k := 0
+		if asked < len(u.Chain) {
+			k = u.Chain[asked]
+		} else if out.engine == "" {
+			out.engine = fmt.Sprintf("the sequencing layer was asked for batch %d of a chain of %d blocks", asked+1, len(u.Chain))
+		}
+		asked++
+		if k == 0 {
 			return world.SeqAnswer{Kind: "batch", Time: clock}
 		}
-		fresh++
-		return world.SeqAnswer{Kind: "batch", Txs: [][]byte{[]byte(fmt.Sprintf("tx-%d", fresh))}, Time: clock}
+		// equal numbers = byte-identical transaction lists
+		return world.SeqAnswer{Kind: "batch", Txs: [][]byte{[]byte(fmt.Sprintf("tx-%d", k))}, Time: clock}
 	}
 	armed := false   // crash / fault choices only while the loops run
 	settled := false // after the fault phase the DA accepts everything
@@ -135,6 +255,9 @@ func bubble(c *explore.Ctx, nBlocks, horizon int) (out outcome) {
 	}
 	if initial > 1 {
 		addTag("initial-height>1")
+	}
+	if u.repeats() > 0 {
+		addTag("repeated-tx-list")
 	}
 	var n *world.Node
 	var fail *world.Fail
@@ -280,6 +403,11 @@ func bubble(c *explore.Ctx, nBlocks, horizon int) (out outcome) {
 	}
 	boot := func(img map[string][]byte) bool {
 		nn, err := world.StartNode(p, env, img, world.NodeOpts{Aggregator: true, OnWrite: onWrite})
+		for err == world.ErrCrashedDuringStart { // an injected crash fired while the manager was being constructed
+			ev("reboot (crashed during start-up)")
+			img = nn.KV.Image()
+			nn, err = world.StartNode(p, env, img, world.NodeOpts{Aggregator: true, OnWrite: onWrite})
+		}
 		if err != nil {
 			setFail(&world.Fail{Clause: "startup", Msg: "node cannot start: " + err.Error()})
 			return false
@@ -303,6 +431,16 @@ func bubble(c *explore.Ctx, nBlocks, horizon int) (out outcome) {
 			}
 		}
 		armed = was
+	}
+	// cleanStop saves the caches of the (stopped) process and starts the next one on the same store and directory
+	cleanStop := func() bool {
+		ev("clean restart")
+		addTag("clean-restart")
+		if err := n.M.SaveCache(); err != nil {
+			setFail(&world.Fail{Clause: "startup", Msg: "SaveCache at clean stop: " + err.Error()})
+			return false
+		}
+		return boot(n.KV.Image())
 	}
 	if !boot(nil) {
 		out.fail, out.tags = fail, tags
@@ -328,13 +466,29 @@ func bubble(c *explore.Ctx, nBlocks, horizon int) (out outcome) {
 			if !boot(img) {
 				break
 			}
+			if tick == u.RestartAt && !cleanStop() {
+				break
+			}
 			startLoops()
 			continue
 		}
 		checkWatermarks(fmt.Sprintf("tick %d", tick))
-		if tick == 2 && produced < nBlocks+1 {
+		if tick >= 2 && produced < nBlocks+1 {
 			produce(1) // a block committed while submission is in progress
 			produced++
+		}
+		if tick == u.RestartAt {
+			// clean stop between two submission attempts: the loops are cancelled, the caches are saved (node/full.go
+			// does this on shutdown) and the next process loads them. A cancelled loop may win one more select round
+			// against ctx.Done(); it must not consume decision points, so the old process is frozen at its next
+			// environment call.
+			cancel()
+			n.Fate.Kill()
+			synctest.Wait()
+			if !cleanStop() {
+				break
+			}
+			startLoops()
 		}
 	}
 	cancel()
@@ -432,6 +586,40 @@ func bubble(c *explore.Ctx, nBlocks, horizon int) (out outcome) {
 	return
 }
 
+// claimer deals the units out among the shard processes: a unit belongs to the first shard that creates its claim
+// file in the directory the parent made for the shard results (every unit is run by exactly one process, whichever
+// it is; the set of executions does not depend on the assignment). Unsharded runs claim everything.
+func claimer(r *vf.Run) (claim func(j int) bool, dir string, first bool) {
+	out, sp := os.Getenv("VERIF_SHARD_OUT"), os.Getenv("VERIF_SHARD")
+	if out == "" || sp == "" {
+		return func(int) bool { return true }, "", true
+	}
+	first = strings.HasPrefix(sp, "0/")
+	os.Unsetenv("VERIF_SHARD") // whole units are dealt out here; explore.Explore must not split them again
+	dir = filepath.Dir(out)
+	claim = func(j int) bool {
+		f, err := os.OpenFile(filepath.Join(dir, fmt.Sprintf("c06-unit-%d.claim", j)), os.O_CREATE|os.O_EXCL|os.O_WRONLY, 0o600)
+		if err != nil {
+			if !os.IsExist(err) {
+				r.EngineError("cannot claim a unit: " + err.Error())
+			}
+			return false
+		}
+		f.Close()
+		return true
+	}
+	return
+}
+
+// unitStat is what one unit's exploration measured; shards publish it next to the claim files so that the shard whose
+// coverage record carries the bounds (shard 0) can state totals over all shards.
+type unitStat struct {
+	Executions int64 `json:"executions"`
+	Restarts   int64 `json:"executions_with_clean_restart"`
+	MaxDepth   int64 `json:"max_depth"`
+	Repeats    int   `json:"repeats"`
+}
+
 func TestCheck(t *testing.T) {
 	r := vf.Start("C06", "model_checking")
 	if r.RunShards(16) { // bubble-heavy: one process per shard of the exploration
@@ -439,52 +627,185 @@ func TestCheck(t *testing.T) {
 	}
 	nBlocks := vf.Pick(r, 2, 3)
 	horizon := vf.Pick(r, 12, 16)
-	budgets := vf.Pick(r, map[string]int{"da": 2, "crash": 1}, map[string]int{"da": 3, "crash": 2})
+	// part A: no clean restart; part B: one clean restart at any observation instant of the fault phase plus further
+	// deviations within a smaller budget (Total = maximal number of DA faults + crashes together, 0 = no joint limit)
+	budgetsA := vf.Pick(r, map[string]int{"da": 2, "crash": 1}, map[string]int{"da": 3, "crash": 2})
+	totalA := vf.Pick(r, 0, 0)
+	budgetsB := vf.Pick(r, map[string]int{"da": 1, "crash": 1}, map[string]int{"da": 2, "crash": 1})
+	totalB := vf.Pick(r, 1, 2)
+	if v := os.Getenv("C06_DEV_BUDGET"); v != "" { // DEV-ONLY da,crash,total
+		var a, b, c int
+		fmt.Sscanf(v, "%d,%d,%d", &a, &b, &c)
+		budgetsA, totalA = map[string]int{"da": a, "crash": b}, c
+		budgetsB, totalB = budgetsA, c
+	}
 	r.Assume = []string{
 		"virtual time (testing/synctest): DA block time 1 s, mempool TTL 2 DA blocks; the two submission loops are started 1 ms apart (both orders explored) so that their timers never coincide",
 		"'accepted by the DA layer' = stored by the DA double (including stored-but-acknowledgement-lost)",
 		"liveness horizon: after the fault phase the DA accepts everything for horizon/2 DA blocks",
-		"crash points: before every Submit call and before every durable write made by the submission loops",
+		"crash points: before every Submit call and before every durable write made by the submission loops (cache files are not written at a crash; the next process finds those of the last clean stop, if any)",
+		"clean restart points: at most one per history, at any of the horizon/2 observation instants of the fault phase (one per DA block): loops cancelled, SaveCache, new process on the same store and cache directory",
+		"chain contents are enumerated up to renaming of transaction lists: a non-empty block carries one transaction; what is varied is which blocks are empty and which blocks carry byte-identical lists",
 	}
-	run := func(c *explore.Ctx) outcome { return body(t, c, nBlocks, horizon) }
 	if r.ReplayPath() != "" {
-		var ch []explore.Point
-		if _, err := r.LoadReplay(&ch); err != nil {
+		var h history
+		if _, err := r.LoadReplay(&h); err != nil {
 			r.EngineError(err.Error())
 		} else {
-			explore.ReplayOne(ch, func(c *explore.Ctx) {
-				if o := run(c); o.fail != nil {
+			explore.ReplayOne(h.Choices, func(c *explore.Ctx) {
+				if o := body(t, c, h.Unit, horizon); o.fail != nil {
 					fmt.Println(o.fail.Msg, o.events)
-					r.Report(vf.Violation{Clause: o.fail.Clause, Tags: o.tags, Msg: o.fail.Msg, History: ch})
+					r.Report(vf.Violation{Clause: o.fail.Clause, Tags: o.tags, Msg: o.fail.Msg, History: h})
 				}
 			})
 		}
 		r.Finish(vf.Coverage{Evaluations: 1, DistinctNontrivial: 1})
 		return
 	}
-	st := explore.Explore(explore.Config{Budgets: budgets, Deadline: vf.Pick(r, 100*time.Second, 25*time.Minute)}, func(c *explore.Ctx) {
-		o := run(c)
-		if o.fail != nil {
-			r.Report(vf.Violation{Clause: o.fail.Clause, Tags: o.tags, Msg: fmt.Sprintf("%s\n events: %v\n choices: %s", o.fail.Msg, o.events, c.String()), Cost: c.Cost(), History: c.Choices()})
-			r.Outcome("fail:" + o.fail.Clause)
-			return
+	// units: configuration × chain content, larger ones first (they are dealt out dynamically among the shards)
+	var units []unit
+	nChains, nRepeatChains := 0, 0
+	for _, ch := range chains(nBlocks + 1) {
+		nChains++
+		if (unit{Chain: ch}).repeats() > 0 {
+			nRepeatChains++
 		}
-		r.Outcome(o.sig)
-		if c.Cost() >= 2 {
-			r.Sample(map[string]any{"events": o.events, "result": o.sig})
+		for _, initial := range []uint64{1, 3} {
+			for _, dataFirst := range []bool{false, true} {
+				for at := 0; at <= horizon/2; at++ {
+					units = append(units, unit{Initial: initial, DataFirst: dataFirst, Chain: ch, RestartAt: at})
+				}
+			}
 		}
-	})
-	for _, m := range st.Nondet {
-		r.EngineError("nondeterminism: " + m)
 	}
+	sort.SliceStable(units, func(i, j int) bool {
+		if a, b := units[i].RestartAt == 0, units[j].RestartAt == 0; a != b {
+			return a
+		}
+		return units[i].nonEmpty() > units[j].nonEmpty()
+	})
+	claim, shardDir, firstShard := claimer(r)
+	started := time.Now()
+	deadline := vf.Pick(r, 100*time.Second, 25*time.Minute)
+	if d, err := time.ParseDuration(os.Getenv("C06_DEV_DEADLINE")); err == nil { // DEV-ONLY
+		deadline = d
+	}
+	var st explore.Stats
 	var caps []string
-	if st.Capped != "" {
-		caps = append(caps, st.Capped)
+	stats := make([]*unitStat, len(units))
+	for j, u := range units {
+		if f := os.Getenv("C06_DEV_UNIT"); f != "" && !strings.Contains(u.String()+" ", f) { // DEV-ONLY
+			continue
+		}
+		if !claim(j) {
+			continue
+		}
+		left := deadline - time.Since(started)
+		if left <= 0 {
+			caps = append(caps, fmt.Sprintf("deadline %s reached before unit %d of %d (%s)", deadline, j+1, len(units), u))
+			continue
+		}
+		var execRestart int64
+		budgets, total := budgetsA, totalA
+		if u.RestartAt > 0 {
+			budgets, total = budgetsB, totalB
+		}
+		s := explore.Explore(explore.Config{Budgets: budgets, Total: total, Deadline: left}, func(c *explore.Ctx) {
+			o := body(t, c, u, horizon)
+			if o.engine != "" {
+				r.EngineError(o.engine)
+			}
+			for _, tg := range o.tags {
+				if tg == "clean-restart" {
+					atomic.AddInt64(&execRestart, 1)
+				}
+			}
+			if o.fail != nil {
+				r.Report(vf.Violation{Clause: o.fail.Clause, Tags: o.tags, Msg: fmt.Sprintf("%s\n unit: %s\n events: %v\n choices: %s", o.fail.Msg, u, o.events, c.String()), Cost: c.Cost() + u.repeats() + min(u.RestartAt, 1), History: history{u, c.Choices()}})
+				r.Outcome("fail:" + o.fail.Clause)
+				return
+			}
+			r.Outcome(o.sig)
+			if c.Cost() >= 2 && (u.repeats() > 0 || c.Cost() >= 3) {
+				r.Sample(map[string]any{"unit": u.String(), "events": o.events, "result": o.sig})
+			}
+		})
+		for _, m := range s.Nondet {
+			r.EngineError(fmt.Sprintf("nondeterminism (%s): %s", u, m))
+		}
+		if s.Capped != "" {
+			caps = append(caps, fmt.Sprintf("%s: %s", u, s.Capped))
+		}
+		st.Executions += s.Executions
+		st.Points += s.Points
+		if s.MaxDepth > st.MaxDepth {
+			st.MaxDepth = s.MaxDepth
+		}
+		if s.Capped == "" {
+			stats[j] = &unitStat{s.Executions, execRestart, s.MaxDepth, u.repeats()}
+			if shardDir != "" {
+				bz, _ := json.Marshal(stats[j])
+				tmp := filepath.Join(shardDir, fmt.Sprintf("c06-unit-%d.tmp", j))
+				if err := os.WriteFile(tmp, bz, 0o600); err == nil {
+					_ = os.Rename(tmp, filepath.Join(shardDir, fmt.Sprintf("c06-unit-%d.stat", j)))
+				}
+			}
+		}
+	}
+	// totals over all shards (measured by whichever shard ran the unit). Shard 0 waits for the others' records; a
+	// record that does not arrive in time only makes the breakdown incomplete, never the verdict.
+	bounds := map[string]any{"blocks": nBlocks + 1, "chains": nChains, "chains_with_repeated_tx_list": nRepeatChains, "units_config_x_chain": len(units), "horizon_da_blocks": horizon,
+		"budgets_without_clean_restart": budgetsA, "budgets_with_one_clean_restart": budgetsB, "max_faults_plus_crashes_with_clean_restart": totalB,
+		"clean_restart_instants": horizon / 2, "max_decision_points": st.MaxDepth}
+	if totalA > 0 {
+		bounds["max_faults_plus_crashes_without_clean_restart"] = totalA
+	}
+	if firstShard {
+		limit := time.Now().Add(deadline - time.Since(started) + 30*time.Second)
+		missing := 0
+		for j := range units {
+			for stats[j] == nil && shardDir != "" {
+				if bz, err := os.ReadFile(filepath.Join(shardDir, fmt.Sprintf("c06-unit-%d.stat", j))); err == nil {
+					var us unitStat
+					if json.Unmarshal(bz, &us) == nil {
+						stats[j] = &us
+						break
+					}
+				}
+				if time.Now().After(limit) {
+					break
+				}
+				time.Sleep(20 * time.Millisecond)
+			}
+			if stats[j] == nil {
+				missing++
+			}
+		}
+		var all, onRepeat, withRestart, depth int64
+		for _, us := range stats {
+			if us == nil {
+				continue
+			}
+			all += us.Executions
+			withRestart += us.Restarts
+			if us.Repeats > 0 {
+				onRepeat += us.Executions
+			}
+			if us.MaxDepth > depth {
+				depth = us.MaxDepth
+			}
+		}
+		bounds["max_decision_points"] = depth
+		breakdown := map[string]any{"executions": all, "executions_on_chains_with_repeated_tx_list": onRepeat, "executions_with_clean_restart": withRestart}
+		if missing > 0 {
+			breakdown["units_without_record"] = missing
+		}
+		bounds["measured_breakdown_all_shards"] = breakdown
 	}
 	r.Finish(vf.Coverage{
 		Evaluations: st.Executions, DistinctNontrivial: int64(r.DistinctOutcomes()), States: st.Executions, Transitions: st.Points,
-		Rule:       "every chain content (empty/non-empty per block) × initial height {1,3} × loop start order × every sequence of DA answers (8-element menu per Submit call) and crash points (before each Submit, before each durable write of the loops) within the deviation budgets; the real submission loops run under virtual time; distinct = distinct (first-acceptance orders, number of Submit calls)",
+		Rule:       "every chain content up to renaming of transaction lists (each block empty, a new list, or a list byte-identical to that of ANY earlier block: adjacent repeats, repeats separated by an empty or by another non-empty block, triple repeats; Bell(blocks+1) chains) × initial height {1,3} × loop start order × every sequence of DA answers (8-element menu per Submit call), crash points (before each Submit, before each durable write of the loops; cache lost) within the deviation budgets, without and with one clean restart (at any DA block of the fault phase; cache files saved and reloaded); the real submission loops run under virtual time; distinct = distinct (first-acceptance orders, number of Submit calls)",
 		Exhaustive: true, Caps: caps,
-		Bounds:     map[string]any{"blocks": nBlocks + 1, "horizon_da_blocks": horizon, "budgets": budgets, "max_decision_points": st.MaxDepth},
+		Bounds: bounds,
 	})
 }
